@@ -59,7 +59,7 @@ def units(tier):
             rot += 1
             form = "fixed" if (rot % 3 == 0 and _one(p, True)) else "free"
             us.append(dict(h="rt1", prog=p, sym=g, form=form, analyze=bool(rot % 2), cost=2))
-    return us
+    return us + stmt_units(tier)
 
 
 def meta(tier):
@@ -146,3 +146,55 @@ def rt1(ctx):
     if len(a) == len(b):
         # fparser1 lower-cases names (case-insensitive legacy parser): words compare case-insensitively
         ctx.check(LX.same_tokens(a, b, ()), "regenerated tokens differ from the program's tokens")
+
+
+def stmt_units(tier):
+    from sse import harvest
+    us = []
+    k = 0
+    for c in harvest.corpus1():
+        spots = c["spots"]
+        n = 2 if tier == "quick" else 6
+        step = max(1, len(spots) // n)
+        for sp in spots[::step][:n]:
+            k += 1
+            us.append(dict(h="rt1_stmt", text=str(c["text"]), spot=[int(x) for x in sp], analyze=False, cost=1))
+    return us
+
+
+def rt1_stmt(ctx):
+    """a statement used by fparser1's own tests, inside a subroutine, one letter/digit of a name or
+    number symbolic: the regenerated source must be accepted again and give the same statements"""
+    p = ctx.p
+    C.reset()
+    text = p["text"]
+    i, a, b = p["spot"]
+    ch = text[i]
+    dom = "digit" if ch.isdigit() else ("upper" if ch.isupper() else "lower")
+    others = text[a:i] + text[i + 1:b]
+    if dom == "digit" and others == "0" * len(others):
+        dom = "digit1"
+    c = ctx.chars("c", 1, dom)
+    word = (text[a:i] + c + text[i + 1:b]).lower()
+    for kw in G.bad_names(b - a):
+        G.require(ctx, word != kw)
+    stmt = text[:i] + c + text[i + 1:]
+    src = "subroutine s\n  " + stmt + "\nend subroutine s\n"
+    ctx.observe("src", src)
+    r1 = C.outcome(lambda: _parse1(src, "free", p["analyze"]))
+    ctx.check(r1[0] == "ok", "statement of fparser1's tests rejected by fparser1 (" + r1[0] + ")")
+    if r1[0] != "ok":
+        return
+    s1 = str(r1[1])
+    b1 = body(s1)
+    ctx.observe("b1", b1)
+    r2 = C.outcome(lambda: _parse1(s1, "free", p["analyze"]))
+    ctx.check(r2[0] == "ok", "fparser1 rejects its own output (" + r2[0] + ")")
+    if r2[0] != "ok":
+        return
+    b2 = body(str(r2[1]))
+    ok_len = len(b1) == len(b2)
+    ctx.check(ok_len, "second round trip has %s statements" % ("more" if len(b2) > len(b1) else "fewer"))
+    if ok_len:
+        ctx.check(api.conj([(x == y) if len(x) == len(y) else False for x, y in zip(b1, b2)]), "second round trip changes the statements")
+    ctx.check(_structure(r1[1]) == _structure(r2[1]), "block structure changes on re-parsing")
